@@ -103,6 +103,7 @@ func (p *Pipeline) Inherit(superSpec *supervisor.Spec, previousGeneration superv
   modifies p.superSpec, p.spec, p.filters, p.flow, p.resilience, gReloaded, gClosedAfter
   ensures old-generation-closed-only-after-the-new-one-is-built: gClosedAfter == ref(p) && gReloaded == ref(p)
   ensures new-spec-installed: p.superSpec == superSpec
+  ghost at call Close: gClosedAfter := gReloaded
 // ---- C02: accepted flows only jump forward, to exactly one node ----
 // a jump target t named at node i is valid iff it is END (and no later node is called END), or exactly one
 // later non-END node carries the alias t; a rejected spec panics (Validate turns the panic into an error)
